@@ -127,16 +127,40 @@ impl<T: ZeroCopy + DeserializeInner, const N: usize> DeserializeHelper<Zero> for
     }
 }
 
+/// Drops the already deserialized items of a partially initialized array when
+/// the deserialization of a later item fails (or panics), so that they are not
+/// leaked. It is forgotten on success.
+struct PartialArrayGuard<T> {
+    ptr: *mut T,
+    init: usize,
+}
+
+impl<T> Drop for PartialArrayGuard<T> {
+    fn drop(&mut self) {
+        // SAFETY: the first `init` items have been written.
+        unsafe { core::ptr::drop_in_place(core::ptr::slice_from_raw_parts_mut(self.ptr, self.init)) }
+    }
+}
+
 impl<T: DeepCopy + DeserializeInner, const N: usize> DeserializeHelper<Deep> for [T; N] {
     type FullType = Self;
     type DeserType<'a> = [<T as DeserializeInner>::DeserType<'a>; N];
     #[inline(always)]
     fn _deserialize_full_inner_impl(backend: &mut impl ReadWithPos) -> deser::Result<Self> {
         let mut res = MaybeUninit::<[T; N]>::uninit();
+        let mut guard = PartialArrayGuard {
+            ptr: res.as_mut_ptr() as *mut T,
+            init: 0,
+        };
         unsafe {
-            for item in &mut res.assume_init_mut().iter_mut() {
-                std::ptr::write(item, T::_deserialize_full_inner(backend)?);
+            for i in 0..N {
+                guard
+                    .ptr
+                    .add(i)
+                    .write(T::_deserialize_full_inner(backend)?);
+                guard.init += 1;
             }
+            core::mem::forget(guard);
             Ok(res.assume_init())
         }
     }
@@ -145,10 +169,16 @@ impl<T: DeepCopy + DeserializeInner, const N: usize> DeserializeHelper<Deep> for
         backend: &mut SliceWithPos<'a>,
     ) -> deser::Result<<Self as DeserializeInner>::DeserType<'a>> {
         let mut res = MaybeUninit::<<Self as DeserializeInner>::DeserType<'_>>::uninit();
+        let mut guard = PartialArrayGuard {
+            ptr: res.as_mut_ptr() as *mut <T as DeserializeInner>::DeserType<'a>,
+            init: 0,
+        };
         unsafe {
-            for item in &mut res.assume_init_mut().iter_mut() {
-                std::ptr::write(item, T::_deserialize_eps_inner(backend)?);
+            for i in 0..N {
+                guard.ptr.add(i).write(T::_deserialize_eps_inner(backend)?);
+                guard.init += 1;
             }
+            core::mem::forget(guard);
             Ok(res.assume_init())
         }
     }
